@@ -23,6 +23,8 @@ type sub struct {
 	ctx        context.Context
 	cancel     context.CancelFunc
 	ch         chan int
+	leader     *sub   // set for the further channels of one Subscribe(ctx, ch1, ch2, ...) call
+	members    []*sub // on the leader: the other channels of its call
 
 	subInvoke, subReturn uint64
 	got                  []int
@@ -64,6 +66,21 @@ func body(s *simrt.Sim, tier string) {
 		sb.ctx, sb.cancel = context.WithCancel(context.Background())
 		subs = append(subs, sb)
 	}
+	// some subscribers arrive together, as several channels of one Subscribe call under one context
+	if nsubs >= 2 && s.Choose(3, "batch") == 0 {
+		k := 2
+		if nsubs >= 3 {
+			k += s.Choose(2, "batchsize")
+		}
+		if first := nsubs - k; !(flood && first == 0) {
+			ld := subs[first]
+			for _, m := range subs[first+1:] {
+				m.leader, m.joinAt, m.willCancel, m.cancelAt = ld, ld.joinAt, ld.willCancel, ld.cancelAt
+				m.ctx, m.cancel = ld.ctx, ld.cancel
+				ld.members = append(ld.members, m)
+			}
+		}
+	}
 	nb := 1 + s.Choose(3, "nbroadcasters")
 	var calls []*bcall
 	var bops [][]bop
@@ -101,11 +118,20 @@ func body(s *simrt.Sim, tier string) {
 			if sb.joinAt > 0 {
 				s.Sleep(sb.joinAt)
 			}
-			sb.subInvoke = s.Stamp()
-			s.Logf("subscribe s%d mode %d", sb.id, sb.mode)
-			b.Subscribe(sb.ctx, sb.ch)
-			s.Yield("sub.ret")
-			sb.subReturn = s.Stamp()
+			if sb.leader != nil {
+				s.WaitUntil("batch", 0, func() bool { return sb.leader.subReturn != 0 })
+				sb.subInvoke, sb.subReturn = sb.leader.subInvoke, sb.leader.subReturn
+			} else {
+				chs := []chan<- int{sb.ch}
+				for _, m := range sb.members {
+					chs = append(chs, m.ch)
+				}
+				sb.subInvoke = s.Stamp()
+				s.Logf("subscribe s%d mode %d (+%d channels)", sb.id, sb.mode, len(sb.members))
+				b.Subscribe(sb.ctx, chs...)
+				s.Yield("sub.ret")
+				sb.subReturn = s.Stamp()
+			}
 			if sb.mode == 2 {
 				s.WaitUntil("stalled", 0, func() bool { return resume.Load() })
 			}
@@ -135,7 +161,7 @@ func body(s *simrt.Sim, tier string) {
 				}
 			}
 		})
-		if sb.willCancel {
+		if sb.willCancel && sb.leader == nil {
 			cn := fmt.Sprintf("cancel%d", sb.id)
 			workNames = append(workNames, cn)
 			s.Go(cn, func() {
